@@ -105,6 +105,7 @@ def logger_variants(observer=None):
     out = {}
     for base, kind in (("A_noexec_then_exec", "sized"), ("H_ttl_and_self_trade", "sized"), ("H_ttl_and_self_trade", "layered"),
                        ("M_three_markets_index", "layered"), ("A_noexec_then_exec", "none"),
+                       ("H_ttl_and_self_trade", "writeonly"), ("G_crossed_then_cleared", "writeonly"), ("G_crossed_then_cleared", "layered"),
                        ("M_three_markets_index", "none"), ("N_halt_in_mid_step", "none")):
         s2 = copy.copy(sc[base])
         s2.name = "%s:%s_logger" % (base, "no" if kind == "none" else kind)
